@@ -430,6 +430,10 @@ class Judge:
         if w[0] in ("fault", "faultfrom"):
             self.armed = int(w[1]) > 0
             return None if line == "ok" else "harness rejected the operation"
+        if w[0] == "huge":
+            # self-checking pass of the harness over a multi-GiB vector: it reports `ok` or the first mismatch
+            self.ideal = None
+            return None if line == "ok live=0" else "self-checking pass `%s`: %s" % (op, line[:200])
         parts = line.split(" | ")
         api, priv = parts[0], (parts[1] if len(parts) > 1 else "")
         m = re.match(r"allocs=(\d+) ", api)
@@ -526,7 +530,7 @@ def safe(ops, mode):
         try:
             if w[0] in ("fault", "faultfrom"):
                 continue
-            if w[0] == "end":
+            if w[0] in ("end", "huge"):
                 ideal = None
                 continue
             if w[0] == "new":
